@@ -31,6 +31,19 @@ StrsUpTo(len) == IF len = 0 THEN {<<>>}
                  ELSE LET shorter == StrsUpTo(len - 1) IN shorter \cup {Append(str, byte) : str \in shorter, byte \in {97, 48, 47}}
 ParseStrs(dummy) == StrsUpTo(5) \cup {<<47, 47, 47, 47, 47, 47, 47>>, <<97, 47, 98, 47, 47, 47>>, <<195, 169, 47, 47>>}
 
+\* ---- paths are VALUES: every operation is a function of its operands and leaves them as they were
+\* (probe kind "alg": the harness derives the paths in this order from shared parents and checks all of them at the end)
+AlgSegs == {<<97>>, <<98>>, <<48>>}
+RECURSIVE AlgPaths(_)
+AlgPaths(len) == IF len = 0 THEN {<<>>} ELSE LET shorter == AlgPaths(len - 1) IN shorter \cup {Append(pp, sg) : pp \in shorter, sg \in AlgSegs}
+AlgProbes(dummy) == {[kind |-> "alg", gi |-> 0, path |-> pp, q |-> qq, r |-> rr]
+                       : pp \in AlgPaths(3) \ {<<>>}, qq \in AlgPaths(2) \ {<<>>}, rr \in {<<<<122>>>>, <<<<121>>, <<120>>>>}}
+PParent(pp) == SubSeq(pp, 1, Len(pp) - 1)
+AlgExpect(pp, qq, rr) ==
+  [parent |-> PParent(pp), j1 |-> PParent(pp) \o qq, j2 |-> PParent(pp) \o rr,
+   a1 |-> Append(SubSeq(pp, 1, 1), qq[1]), a2 |-> Append(SubSeq(pp, 1, 1), rr[1]),
+   jj |-> (PParent(pp) \o qq) \o rr, tail |-> Tail(pp), last |-> pp[Len(pp)]]
+
 Clean(p) == \A i \in DOMAIN p : p[i] # <<>> /\ \A j \in DOMAIN p[i] : p[i][j] # 47
 
 \* ---- resolution probes: every existing path (depth <= 3) extended by nothing or by one odd segment
@@ -50,6 +63,7 @@ Init2 == /\ case = [g |-> G7, sel |-> SMatch, cfg |-> NoCfg] /\ frames = <<>> /\
          /\ nb = -1 /\ lb = -1 /\ seen = {} /\ err = <<>> /\ done = TRUE      \* the walk machine is idle here
          /\ probe \in ({[kind |-> "str", gi |-> 0, path |-> p] : p \in StrPaths}
                     \cup {[kind |-> "parse", gi |-> 0, path |-> <<str>>] : str \in ParseStrs(0)}
+                    \cup AlgProbes(0)
                     \cup {[kind |-> "get", gi |-> x.gi, path |-> x.path] : x \in GetProbes})
 Next2 == UNCHANGED <<probe, vars>>
 Spec2 == Init2 /\ [][Next2]_<<probe, vars>>
@@ -75,7 +89,10 @@ ResolveIffExists ==
 
 Emit2 ==
   PrintT(ToJson(
-    IF probe.kind = "parse"
+    IF probe.kind = "alg"
+      THEN [kind |-> "alg", g |-> <<>>, path |-> probe.path, joined |-> <<>>, split |-> <<>>, ok |-> TRUE, node |-> Nil,
+            q |-> probe.q, r |-> probe.r, alg |-> AlgExpect(probe.path, probe.q, probe.r)]
+    ELSE IF probe.kind = "parse"
       THEN [kind |-> "parse", g |-> <<>>, path |-> <<>>, joined |-> probe.path[1],
             split |-> SplitStr(probe.path[1]), ok |-> TRUE, node |-> Nil]
     ELSE IF probe.kind = "str"
